@@ -106,6 +106,10 @@ fn tspec_tags(syms: &Symbols, cur: &[String], t: &TSpec, out: &mut BTreeSet<Stri
         }
         TSpec::Seq(e, b) => {
             out.insert(if b.is_some() { "type:sequence-bounded" } else { "type:sequence" }.into());
+            if b.is_none() && matches!(**e, TSpec::Str(Some(_)) | TSpec::WStr(Some(_)) | TSpec::Seq(_, Some(_))) {
+                // rendered as `sequence<string<N>>`: the bound is directly followed by `>>`
+                out.insert("syntax:bound-followed-by->>".into());
+            }
             tspec_tags(syms, cur, e, out);
         }
         TSpec::Ref(p, st) => {
@@ -303,7 +307,11 @@ pub fn shape_of_features(f: &BTreeSet<String>) -> String {
         "union:switch-integer", "shape:array",
     ];
     let kinds = ["module", "module:nested", "struct", "enum", "union", "typedef"];
-    let v: Vec<&str> = f.iter().map(|s| s.as_str()).filter(|t| !boring.contains(t) && !kinds.contains(t)).collect();
+    let mut v: Vec<&str> = f.iter().map(|s| s.as_str()).filter(|t| !boring.contains(t) && !kinds.contains(t)).collect();
+    // what a scoped name refers to does not matter once the way it is written is the distinguishing feature
+    if v.iter().any(|t| *t == "ref:relative-via-enclosing-scope" || *t == "ref:absolute-at-file-scope") {
+        v.retain(|t| !t.starts_with("ref:to-"));
+    }
     if !v.is_empty() {
         return v.join("+");
     }
